@@ -175,6 +175,21 @@ class AutoSerialize:
         return val
 
     @staticmethod
+    def _load_torch_or_rng_group(subgroup: zarr.Group):
+        """Decode optimizer / scheduler / NumPy-generator groups; returns (handled, value)."""
+        for flag, key in (("_torch_optimizer", "optimizer"), ("_torch_scheduler", "scheduler")):
+            if subgroup.attrs.get(flag):
+                data = AutoSerialize._read_array_np(subgroup, key).tobytes()
+                return True, torch.load(io.BytesIO(data), map_location="cpu", weights_only=False)
+        if subgroup.attrs.get("_numpy_rng"):
+            import numpy.random as npr
+
+            bit_gen_type = str(subgroup.attrs.get("_bit_generator_type", "PCG64"))
+            # like the attribute path: same kind of generator, fresh state
+            return True, npr.Generator(getattr(npr, bit_gen_type, npr.PCG64)())
+        return False, None
+
+    @staticmethod
     def _is_autoserialize_instance(value: Any) -> bool:
         """Return True if value behaves like an AutoSerialize instance, even across autoreloads."""
         if isinstance(value, AutoSerialize):
@@ -983,9 +998,12 @@ class AutoSerialize:
                                 # Skip unknown logger types in containers
                                 continue
                         else:
-                            raise ValueError(
-                                f"Unknown group structure at key '{key}' in {group.path}"
-                            )
+                            handled, special = cls._load_torch_or_rng_group(subgroup)
+                            if not handled:
+                                raise ValueError(
+                                    f"Unknown group structure at key '{key}' in {group.path}"
+                                )
+                            items.append(special)
                     else:
                         raise KeyError(f"Missing expected key '{key}' in container")
             # Restore container type and special torch containers
@@ -1101,7 +1119,12 @@ class AutoSerialize:
                             # Skip unknown logger types in containers
                             continue
                     else:
-                        raise ValueError(f"Unknown group structure at key '{key}' in {group.path}")
+                        handled, special = cls._load_torch_or_rng_group(subgroup)
+                        if not handled:
+                            raise ValueError(
+                                f"Unknown group structure at key '{key}' in {group.path}"
+                            )
+                        items.append(special)
                 else:
                     raise KeyError(f"Missing expected key '{key}' in container")
             return set(items)
@@ -1191,7 +1214,12 @@ class AutoSerialize:
                         # Skip unknown logger types in containers
                         continue
                 else:
-                    raise ValueError(f"Unknown group structure at key '{key}' in {group.path}")
+                    handled, special = cls._load_torch_or_rng_group(subgroup)
+                    if not handled:
+                        raise ValueError(
+                            f"Unknown group structure at key '{key}' in {group.path}"
+                        )
+                    result[key] = special
 
             return result
 
